@@ -139,6 +139,18 @@ func (h *History) fillReflect(dst protoreflect.Message, av protoreflect.Message)
 		case fd.Kind() == protoreflect.MessageKind:
 			h.fillReflect(dst.Mutable(dfd).Message(), v.Message())
 		default:
+			if od := dfd.ContainingOneof(); od != nil && !od.IsSynthetic() && h.Overwrite && od.Fields().Len() > 1 {
+				// oneof history: another member is set first, then replaced
+				other := od.Fields().Get(h.T.Draw("oneof-other", od.Fields().Len()))
+				if other.Number() != dfd.Number() {
+					if other.Message() != nil {
+						dst.Mutable(other)
+					} else {
+						dst.Set(other, cloneValue(other, other.Default()))
+					}
+					h.note("oneof %s: %s set first, then %s", od.Name(), other.Name(), dfd.Name())
+				}
+			}
 			dst.Set(dfd, cloneValue(fd, v))
 		}
 		h.between()
@@ -163,11 +175,38 @@ func (h *History) overfill(l protoreflect.List, fd protoreflect.FieldDescriptor,
 		if fd.Kind() == protoreflect.MessageKind {
 			l.Append(l.NewElement())
 		} else {
-			l.Append(cloneValue(fd, fd.Default()))
+			l.Append(zeroScalar(fd))
 		}
 	}
 	l.Truncate(n)
 	h.note("overfilled %s by %d and truncated to %d", fd.Name(), extra, n)
+}
+
+// zeroScalar is the zero value of a scalar field kind (Default() is not
+// defined for repeated fields).
+func zeroScalar(fd protoreflect.FieldDescriptor) protoreflect.Value {
+	switch fd.Kind() {
+	case protoreflect.BoolKind:
+		return protoreflect.ValueOfBool(false)
+	case protoreflect.EnumKind:
+		return protoreflect.ValueOfEnum(0)
+	case protoreflect.Int32Kind, protoreflect.Sint32Kind, protoreflect.Sfixed32Kind:
+		return protoreflect.ValueOfInt32(0)
+	case protoreflect.Int64Kind, protoreflect.Sint64Kind, protoreflect.Sfixed64Kind:
+		return protoreflect.ValueOfInt64(0)
+	case protoreflect.Uint32Kind, protoreflect.Fixed32Kind:
+		return protoreflect.ValueOfUint32(0)
+	case protoreflect.Uint64Kind, protoreflect.Fixed64Kind:
+		return protoreflect.ValueOfUint64(0)
+	case protoreflect.FloatKind:
+		return protoreflect.ValueOfFloat32(0)
+	case protoreflect.DoubleKind:
+		return protoreflect.ValueOfFloat64(0)
+	case protoreflect.StringKind:
+		return protoreflect.ValueOfString("")
+	default:
+		return protoreflect.ValueOfBytes(nil)
+	}
 }
 
 // extraKeys draws up to n keys that are not in the final key set.
